@@ -72,7 +72,7 @@ for i in ids:
         cat,tech,text,note=C[i]
         checks.append({"property_id":i,"quick_cmd":"./run.sh %s quick"%i,"thorough_cmd":"./run.sh %s thorough"%i,
           "evidence_file":"/verif/evidence/%s.json"%i,
-          "replay_cmd_template":"cat {path}  # witness (input/schedule/history); re-run: VERIF_SEED=<seed in file> ./run.sh %s <tier>"%i,
+          "replay_cmd_template":"./run.sh %s replay {path}"%i,
           "engine":"harness","level_claimed":{"category":cat,"text":text,"design_ref":"DESIGN.md section 4, %s"%i},
           "level_note":note,"technique":tech})
 na=[{"property_id":i,"reason":"no check registered"} for i in ids if i not in C]
